@@ -54,6 +54,8 @@ def run_check(pid, tier, root, seed=0, timeout=3600):
             text=True, timeout=timeout,
             env=dict(os.environ, DESPER_ROOT=root, PYTHONHASHSEED='0',
                      PYTHONDONTWRITEBYTECODE='1',
+                     VF_TREE_PREDATES_AAD6AA0='1' if os.path.exists(
+                         os.path.join(root, '.predates_aad6aa0')) else '',
                      VF_REPLAY_DIR=os.path.join(root, 'vf-replays')
                      if root != REPO else ''))
         out = proc.stdout + proc.stderr
